@@ -2185,7 +2185,7 @@ class QuaternionArray(np.ndarray):
 
         # Assert valid input
         _assert_iterables(q, 'Quaternion Array')
-        q = np.array(q, dtype=float)
+        q = np.array(q, dtype=float, order='C')
         if q.ndim != 2 or q.shape[-1] not in [3, 4]:
             raise ValueError(f"Expected array to have shape (N, 4) or (N, 3), got {q.shape}.")
         q_norm = np.linalg.norm(q, axis=1)
